@@ -16,7 +16,7 @@ INV = "TypeOK Descent ReportConsistent Budget FeasibleAlways Converged Bracketed
 def _design_cfg(path, budgets, boxes, objs, maxrank, maxinner, live=False, pols='"auto", "ignore", "keep"'):
     with open(path, "w") as f:
         f.write("SPECIFICATION %s\nCONSTANTS\n  Budgets = {%s}\n  Pols = {%s}\n  Objs <- %s\n  MaxRank = %d\n  MaxInner = %d\n"
-                "  Boxes <- %s\n  KConv = 1000\n" % ("Spec" if live else "SafetySpec", budgets, pols, objs, maxrank, maxinner, boxes))
+                "  Boxes <- %s\n  KConv = 1000\n  KConvX = 10\n" % ("Spec" if live else "SafetySpec", budgets, pols, objs, maxrank, maxinner, boxes))
         if live:
             f.write("INVARIANTS TypeOK Budget\nPROPERTY Terminates\n")
         else:
@@ -77,7 +77,12 @@ def _validate(ck, trace, parallel=None, rounds=6):
         if left == 0:
             break
     else:
-        raise vc.MachineryError("C10: more than %d rounds of rejections in %s" % (rounds, trace))
+        # still rejections after all rounds: fine if they are (going to be) reported as violations - the verdict is
+        # already negative; refusing to pass silently otherwise
+        unexplained = [r for r in all_rej if not vc.match_known("C10", _sig(r))]
+        if not unexplained:
+            raise vc.MachineryError("C10: more than %d rounds of known-finding rejections in %s" % (rounds, trace))
+        vc.log("  C10: rejections in every one of %d rounds; remaining scenarios of %s not validated" % (rounds, trace))
     if cur != trace and os.path.exists(cur):
         os.remove(cur)
     ck.traces += total
@@ -122,7 +127,7 @@ def run(tier, seed):
     # 1. design model: the optimize()/step() template with an abstract step - safety, then liveness
     cfg = os.path.join(wd, "design.cfg")
     if quick:
-        consts = ('1, 3', "BoxesQ1", "ObjsOne", 1, 1)
+        consts = ('1, 3', "BoxesQ1", "ObjsTwo", 1, 1)
     else:
         consts = ('0, 1, 2, 3', "Boxes1", "ObjsAll", 1, 1)
     _design_cfg(cfg, *consts)
@@ -182,7 +187,7 @@ def run(tier, seed):
     ck.distinct = ck.traces
     ck.assumptions = ["TLC 1.8.0; CommunityModules Json",
                       "harness/drv_optim.cpp: E1 codes/ranks computed by exact comparison of doubles; objective, derivatives and minimiser are the harness's own",
-                      "Converged uses E4 with KConv=1000 (distance <= 1000*sqrt(tol)*max(1,|m|)), asserted only when the run stopped by tolerance with budget to spare",
+                      "Converged uses E4: distance <= K*sqrt(tol*max(1,|f*|))*max(1,|m|) with K=1000 (stop condition on the function value) or K=1 (on the abscissa: Brent, golden section); asserted only for quadratics whose run never came near a bound, stopped by tolerance, used <= 1/10 of the budget",
                       "budget clause is stated on the optimiser's own counter (getNumberOfEvaluations), as AbstractOptimizer::optimize() does"]
     return ck.finish()
 
